@@ -54,6 +54,10 @@ for c in checks:
     lines = [l for l in p.stdout.splitlines() if l.startswith(("VIOLATION", "KNOWN-FINDING", "check exit code", "TOOL ERROR")) or "does not" in l]
     res[c] = {"exit": next((l for l in lines if l.startswith("check exit code")), "?"), "violations": sum(1 for l in lines if l.startswith("VIOLATION")),
               "first": [l for l in lines if l.startswith("VIOLATION")][:2], "other": [l for l in lines if not l.startswith("VIOLATION")][:6]}
+try:
+    meta.setdefault("needs", json.load(open("/verif/seeded/needs.json")).get(tag, ""))
+except Exception:
+    pass
 meta["checks"] = res
 meta["caught_by"] = [c for c, r in res.items() if r["violations"] > 0]
 meta["when"] = time.strftime("%Y-%m-%d %H:%M")
